@@ -5,7 +5,7 @@
    U is any finite list containing everything the table and the peers can mention.  `reachable` / `steps` range over
    EVERY sequence of events: startQueries doing something, the table's or any outstanding peer's reply being received
    next, cancellation at any moment. *)
-From Shisui Require Import Base.Bytes Gen.K_table Model.Lookup Proofs.Lookup.
+From Shisui Require Import Base.Bytes Gen.K_table Gen.K_wire Model.Lookup Proofs.Lookup.
 
 (* never more than alpha = 3 queries in flight; pending within asked; nobody asked twice; the local node never asked *)
 Theorem C10_in_flight_and_asked_once : forall target self tbl ans U s,
@@ -146,6 +146,21 @@ Theorem C10_query_success_flag : forall r : list (option N),
   (track_success r = true <-> r <> []) /\ track_success [] = false.
 Proof. intros r. split; [exact (track_success_iff r) | reflexivity]. Qed.
 Print Assumptions C10_query_success_flag.
+
+(* the glue of node lookups: whatever a peer's FINDNODES answer was, the reply PortalProtocol.lookupWorker hands to the
+   lookup never contains the local node, has at most portalFindnodesResultLimit = 32 entries, only entries of the answer,
+   in distance order; and building it never panics *)
+Theorem C10_worker_reply : forall target self r,
+  exists l, lookup_worker_reply (xkey target) self r = Ok l /\ ~ In self l /\
+            (length l <= 32)%nat /\ N.of_nat (length l) <= K_wire.K_portalFindnodesResultLimit /\
+            incl l r /\ sorted (xkey target) l.
+Proof.
+  intros target self r. destruct (lookup_worker_reply_spec (xkey target) self r) as [l [H1 [H2 [H3 [H4 H5]]]]].
+  assert (E : findnodes_limit = 32%nat) by (vm_compute; reflexivity).
+  assert (E' : K_wire.K_portalFindnodesResultLimit = 32) by (vm_compute; reflexivity).
+  exists l. repeat split; try assumption; lia.
+Qed.
+Print Assumptions C10_worker_reply.
 
 (* premises are satisfiable by a non-trivial run: target 0, local node 100, table [5;9], peer 5 answers with a duplicate,
    the asker and a cycle back to 9, peer 9 points to 5 and to 2; replies taken in the order 9, 5, 2 *)
